@@ -64,13 +64,23 @@ def build_driver():
     subprocess.check_call(["cargo", "+nightly", "build", "--offline"], cwd=DRIVER_DIR, env=env)
 
 
+def _workspace_target_crates():
+    """Crate names of the workspace's own targets (library, integration tests, benches, fuzz targets)."""
+    names = ["microscpi"]
+    for sub in ("microscpi/tests", "microscpi/benches", "microscpi/fuzz/fuzz_targets"):
+        d = os.path.join(REPO, sub)
+        if os.path.isdir(d):
+            names += [f[:-3] for f in sorted(os.listdir(d)) if f.endswith(".rs")]
+    return ",".join(names)
+
+
 # cfg name -> (cwd, cargo args, crates to dump, wrapper kind)
 def _configs():
     return {
         "lib": (REPO, ["-p", "microscpi", "--lib"], "microscpi,microscpi_macros"),
         "std": (REPO, ["-p", "microscpi", "--lib", "--features", "std"], "microscpi"),
         "dfm": (REPO, ["-p", "microscpi", "--lib", "--features", "defmt"], "microscpi"),
-        "tgt": (REPO, ["--workspace", "--all-targets"], "*"),
+        "tgt": (REPO, ["--workspace", "--all-targets"], _workspace_target_crates()),
     }
 
 
